@@ -377,3 +377,19 @@ where
 
     Ok(())
 }
+
+/// Verification hook (cargo feature `verif-hooks`): public alias of [`cache_cobs`].
+#[cfg(feature = "verif-hooks")]
+pub fn verif_cache_cobs<S, C>(
+    rid: &RepoId,
+    refs: &[RefUpdate],
+    storage: &S,
+    cache: &mut C,
+) -> Result<(), error::Cache>
+where
+    S: ReadRepository + cob::Store<Namespace = NodeId>,
+    C: cob::cache::Update<cob::issue::Issue> + cob::cache::Update<cob::patch::Patch>,
+    C: cob::cache::Remove<cob::issue::Issue> + cob::cache::Remove<cob::patch::Patch>,
+{
+    cache_cobs(rid, refs, storage, cache)
+}
